@@ -57,6 +57,7 @@ func runGoldenMode() {
 			note("case %s", name)
 			n++
 			emit(fmt.Sprintf("sd decode %s %s %s", schemaID, rootName, hexStream), expected)
+			emitReencode(rootName, hexStream)
 			// expected = "OK dv=0|<m>:<dump>|...|END"
 			fields := strings.Split(expected, "|")
 			var want []string
